@@ -51,6 +51,7 @@ func (w *docWriter) cborHead(major byte, arg uint64, minimalOnly bool) {
 }
 
 func (w *docWriter) cborVal(v Val, depth int, minimal bool) {
+	beat()
 	s := len(w.b)
 	switch v.K {
 	case VNull:
